@@ -804,12 +804,13 @@ def bare_path_in_or(pred):
 
 
 def classify(pred, dbd, real, want_full):
-    if bare_path_in_or(pred) and ("err" in real or sorted(real["full"]) != sorted(want_full)):
-        return "C10-bare-path-in-or", "a bare path (the attribute exists) as an alternative of | raises or loses the alternative"
+    # (the recorded findings first: a predicate that also holds a bare path is judged by its LIKE / literal part)
     if has_misparsed_literal(pred):
         return "C10-sqlite-float-literal", "a float literal in the generated SQL is parsed by SQLite one ulp off, so the comparison misses"
     if like_sensitive(pred, dbd):
         return "C10-like-semantics", "contains()/in_() use SQL LIKE: case-insensitive, _ and % are wildcards"
+    if bare_path_in_or(pred) and ("err" in real or sorted(real["full"]) != sorted(want_full)):
+        return "C10-bare-path-in-or", "a bare path (the attribute exists) as an alternative of | raises or loses the alternative"
     if "err" in real:
         if real["err"].startswith("TypeError") and "unary ~" in real["err"]:
             return "C10-not-of-junction", "~ applied to an and/or combination raises TypeError"
